@@ -168,8 +168,12 @@ def default_arg_writes(I, t0=0):
     hits = []
     if not I.default_objects:
         return hits
+    # (a dictionary store under a key built from the data of the call is a memo table keyed by its arguments: whether it is keyed well
+    # enough is what the <Cxx>.history rule decides; it is not reported here)
     for e in I.trace[t0:]:
         if e.kind in ("store", "inplace", "dict-store", "dict-update", "dict-pop", "list-append", "list-mutate"):
+            if e.kind == "dict-store" and len(e.data) > 2 and e.data[2] == "data-keyed":
+                continue
             for d in e.data:
                 if isinstance(d, int) and d in I.default_objects:
                     fn, pname, _ = I.default_objects[d]
